@@ -377,6 +377,8 @@ class Program:
         self.models = {}        # skeleton -> python fn(it, key, raw, args)
         self.overrides = {}     # skeleton or exact callee -> python fn
         self.drop_types = set()
+        self.call_cache = {}
+        self.adt_cache = {}
         self.stats = {}
         for name, vs in (('Option', ['None', 'Some']), ('Result', ['Ok', 'Err']), ('ControlFlow', ['Continue', 'Break']),
                          ('Poll', [('Ready', 'tuple', 1, 0), ('Pending', 'unit', 0, 1)]),
@@ -637,8 +639,8 @@ class Interp:
             k = pr[0]
             if k == 'field':
                 v = cell.v
-                if isinstance(cell, TransCell) or isinstance(v, BoxUninit):
-                    continue
+                if isinstance(cell, TransCell) or isinstance(v, Ref):
+                    continue    # Box<T> / Unique<T> / NonNull<T> wrappers around a pointer are transparent
                 if v is None:
                     v = cell.v = Agg(None, [])
                 if isinstance(v, Closure):
@@ -865,12 +867,11 @@ class Interp:
 
     def adt(self, r, frame):
         _, path, kind, fields = r
-        segs = [x for x in strip_generics(path).split('::') if x]
-        src = self.prog.src
-        d = src.find_adt(segs)
-        if isinstance(d, tuple):
-            raise Unsupported('ambiguous ADT %r' % path)
-        if d is not None and d.kind == 'struct':
+        ent = self.prog.adt_cache.get(path)
+        if ent is None:
+            ent = self.prog.adt_cache[path] = self.adt_resolve(path)
+        what, d, extra = ent
+        if what == 'struct':
             if kind == 'named':
                 vals = {fn: self.operand(fv, frame) for fn, fv in fields}
                 try:
@@ -878,23 +879,38 @@ class Interp:
                 except KeyError:
                     raise Unsupported('struct fields mismatch %r %r' % (path, d.fields))
             return Agg(d.name, [Cell(self.operand(x, frame)) for x in fields])
+        if what == 'variant':
+            vn, vk, vf, discr = extra
+            if kind == 'named':
+                vals = {fn: self.operand(fv, frame) for fn, fv in fields}
+                return Agg(d.name, [Cell(vals[fn]) for fn in vf], discr)
+            return Agg(d.name, [Cell(self.operand(x, frame)) for x in fields], discr)
+        if what == 'model':
+            return d(self, kind, [(x[0], self.operand(x[1], frame)) if kind == 'named' else self.operand(x, frame) for x in fields])
+        raise Unsupported('unknown ADT %r' % path)
+
+    def adt_resolve(self, path):
+        segs = [x for x in strip_generics(path).split('::') if x]
+        src = self.prog.src
+        d = src.find_adt(segs)
+        if isinstance(d, tuple):
+            raise Unsupported('ambiguous ADT %r' % path)
+        if d is not None and d.kind == 'struct':
+            return ('struct', d, None)
         if len(segs) >= 2:
             e = src.find_adt(segs[:-1])
             if isinstance(e, tuple):
                 raise Unsupported('ambiguous ADT %r' % path)
             if e is not None and e.kind == 'enum':
                 try:
-                    _, (vn, vk, vf, discr) = e.variant(segs[-1])
+                    _, v = e.variant(segs[-1])
                 except KeyError:
                     raise Unsupported('unknown variant %r' % path)
-                if kind == 'named':
-                    vals = {fn: self.operand(fv, frame) for fn, fv in fields}
-                    return Agg(e.name, [Cell(vals[fn]) for fn in vf], discr)
-                return Agg(e.name, [Cell(self.operand(x, frame)) for x in fields], discr)
+                return ('variant', e, v)
         f = ADT_MODELS.get('::'.join(segs[-2:])) or ADT_MODELS.get(segs[-1])
         if f:
-            return f(self, kind, [(x[0], self.operand(x[1], frame)) if kind == 'named' else self.operand(x, frame) for x in fields])
-        raise Unsupported('unknown ADT %r' % path)
+            return ('model', f, None)
+        return ('none', None, None)
 
     def cast(self, v, ty, kind):
         if kind == 'IntToInt':
@@ -1035,31 +1051,30 @@ class Interp:
     # ---- calls
     def call(self, raw, args, frame=None):
         self.nblocks += 1
-        ov = self.overrides.get(raw)
-        if ov is not None:
-            return ov(self, None, raw, args)
-        key = callee_key(raw)
-        sk = skeleton(key)
-        ov = self.overrides.get(sk)
-        if ov is not None:
-            return ov(self, key, raw, args)
-        if key[0] == 'trait' and key[3] == 'fmt':
-            return ok(UNIT)
-        b = self.prog.resolve(key, raw)
-        if b is not None:
+        ovs = self.overrides
+        if ovs:
+            ov = ovs.get(raw)
+            if ov is not None:
+                return ov(self, None, raw, args)
+        ent = self.prog.call_cache.get(raw)
+        if ent is None:
+            ent = self.prog.call_cache[raw] = self.static_resolve(raw)
+        key, sk, kind, target = ent
+        if ovs:
+            ov = ovs.get(sk)
+            if ov is not None:
+                return ov(self, key, raw, args)
+        if kind == 'body':
             if key[0] == 'trait' and key[1].startswith('&'):
                 # impl of the trait for &T forwards to T's impl: strip one reference level per '&'
                 for _ in range(len(key[1]) - len(key[1].lstrip('&'))):
                     args = [a.cell.v if isinstance(a, Ref) and isinstance(a.cell.v, Ref) else a for a in args]
-            return self.run(b, args)
-        f = MODELS.get(sk)
-        if f is not None:
-            return f(self, key, raw, args)
-        if key[0] == 'trait':
-            f = MODELS.get('<* as %s>::%s' % (key[2], key[3]))
-            if f is not None:
-                return f(self, key, raw, args)
-            # dynamic dispatch on the receiver's run-time type
+            return self.run(target, args)
+        if kind == 'model':
+            return target(self, key, raw, args)
+        if kind == 'fmt':
+            return ok(UNIT)
+        if kind == 'dyn':
             r = self.dyn_dispatch(key, raw, args)
             if r is not NotImplemented:
                 return r
@@ -1067,6 +1082,24 @@ class Interp:
             if rx.search(raw):
                 return f(self, key, raw, args)
         raise Unsupported('call %r (skeleton %r)' % (raw, sk))
+
+    def static_resolve(self, raw):
+        key = callee_key(raw)
+        sk = skeleton(key)
+        if key[0] == 'trait' and key[3] == 'fmt':
+            return (key, sk, 'fmt', None)
+        b = self.prog.resolve(key, raw)
+        if b is not None:
+            return (key, sk, 'body', b)
+        f = MODELS.get(sk)
+        if f is not None:
+            return (key, sk, 'model', f)
+        if key[0] == 'trait':
+            f = MODELS.get('<* as %s>::%s' % (key[2], key[3]))
+            if f is not None:
+                return (key, sk, 'model', f)
+            return (key, sk, 'dyn', None)
+        return (key, sk, 'none', None)
 
     def dyn_dispatch(self, key, raw, args):
         if not args:
@@ -1105,7 +1138,7 @@ class Interp:
         raise Unsupported('call of %r' % (f,))
 
     def run(self, body, args):
-        if self.depth > 3000:
+        if self.depth > 60000:
             raise Unsupported('call depth')
         self.depth += 1
         try:
@@ -1270,7 +1303,7 @@ class Stats:
                     infeasible=self.infeasible, solver_s=round(self.solver_s, 2))
 
 
-def explore(prog, scenario, mode='dev', stats=None, max_paths=None, setup=None):
+def explore(prog, scenario, mode='dev', stats=None, max_paths=None, setup=None, on_panic=None):
     """Run `scenario(it)` once per feasible path.  `scenario` builds its inputs, calls into MIR via `it`,
     and performs its own property queries; it returns a value collected in the result list."""
     stats = stats or Stats()
@@ -1287,6 +1320,11 @@ def explore(prog, scenario, mode='dev', stats=None, max_paths=None, setup=None):
             stats.paths += 1
         except Infeasible:
             stats.infeasible += 1
+        except Panic as e:
+            stats.panics += 1
+            if on_panic is None:
+                raise
+            on_panic(it, e)
         finally:
             stats.add(it)
         work.extend(it.pending)
